@@ -189,9 +189,18 @@ func init() {
 		nreq := &http.Request{Method: method, URL: &url.URL{Path: path}, Header: http.Header{}}
 		var match mux.RouteMatch
 		var handler Value
-		if r.real.Match(nreq, &match) && match.MatchErr == nil {
+		matched := r.real.Match(nreq, &match)
+		if match.MatchErr == mux.ErrMethodMismatch {
+			// the path is known but not with this method: gorilla/mux answers 405
+			m.event("mux: %s %s -> method not allowed", method, path)
+			m.invokeMethod(c, a[1], "WriteHeader", sym.BVConst(64, 405))
+			return nil
+		}
+		if matched && match.MatchErr == nil {
 			if mk, ok := match.Handler.(muxMarker); ok {
 				handler = (*r.handlers)[mk.idx]
+			} else if match.Handler != nil {
+				m.unsupported("gorilla/mux internal handler (strict-slash redirect) for %s %s", method, path)
 			}
 			if len(match.Vars) > 0 || handler != nil {
 				vm := &Map{KeyT: types.Typ[types.String]}
@@ -249,6 +258,14 @@ func init() {
 		*p = zero(m.eng.nativeType("net/http/httputil.ReverseProxy"))
 		return p
 	}
+	// CORS and tracing wrappers are transparent
+	natives["github.com/rs/cors.New"] = func(m *Machine, c *frame, fn *ssa.Function, a []Value) Value {
+		p := new(Value)
+		*p = zero(m.eng.nativeType("github.com/rs/cors.Cors"))
+		return p
+	}
+	natives["(*github.com/rs/cors.Cors).Handler"] = func(m *Machine, c *frame, fn *ssa.Function, a []Value) Value { return a[1] }
+	natives["go.opencensus.io/plugin/ochttp.WithRouteTag"] = func(m *Machine, c *frame, fn *ssa.Function, a []Value) Value { return a[0] }
 	natives["(*net/http/httputil.ReverseProxy).ServeHTTP"] = func(m *Machine, c *frame, fn *ssa.Function, a []Value) Value {
 		hook := m.eng.pkg.Func("vrfDaemonServe")
 		if hook == nil {
